@@ -1,6 +1,6 @@
 (* C16 — refill equals filling the original paragraph at the new width. *)
 From TW Require Import Refill.
-From TW Require Import UnfillFacts.
+From TW Require Import UnfillFacts FillShape.
 
 Section C16.
 Variable cw : char -> N.
@@ -37,7 +37,26 @@ Proof.
   rewrite M1, M2, Hc.
   destruct (fill _ _ _ _ _ _ _); reflexivity.
 Qed.
+
+(* with fill itself: when the first filling has at least two lines,
+   refill (fill o1 para ++ tail) o2 = fill (o2 with o1's indents) para ++ tail converted *)
+Theorem C16_refill_of_fill : forall o (words : list str),
+  o_bw o = false -> o_spl o = SplNone -> o_sep o = SepAscii -> Pipeline.OfitOK ofit ->
+  Forall word_ok words -> words <> [] -> pchars (o_ii o) -> pchars (o_si o) ->
+  exists groups, concat groups = words /\
+    fill cw alnum lbc custom_sp ofit o (join [SP] words) = Some (filled (o_ii o) (o_si o) (o_le o) groups) /\
+    (many groups = true -> forall o2 (ht : bool),
+       refill cw alnum lbc custom_sp ofit o2
+         (filled (o_ii o) (o_si o) (o_le o) groups ++ (if ht then le_str (o_le o) else [])) =
+       match fill cw alnum lbc custom_sp ofit
+               (mkOptions (o_width o2) (o_le o2) (o_ii o) (o_si o) (o_bw o2) (o_alg o2) (o_sep o2) (o_spl o2))
+               (join [SP] words) with
+       | Some r => Some (r ++ (if ht then le_str (o_le o2) else []))
+       | None => None
+       end).
+Proof. exact (FillShape.refill_fill_many cw alnum lbc custom_sp ofit). Qed.
 End C16.
 
 Print Assumptions C16_refill.
 Print Assumptions C16_independent_of_old_width.
+Print Assumptions C16_refill_of_fill.
